@@ -1031,13 +1031,28 @@ impl FunctionCompiler<'_> {
                 self.compile_and_cast(inner_expr, cast_to)
             }
             hir::Expr::Ref { expr, .. } => {
+                // `^mut (x)`, `^mut p^` and `^mut #unwrap(o, T)` refer to the place itself, just
+                // like `^mut x`, and not to a temporary copy of its value
+                let mut place = expr;
+                while let hir::Expr::Paren(Some(inner)) = self.world_bodies[self.loc.file()][place]
+                {
+                    place = inner;
+                }
+                let is_unwrap = matches!(
+                    &self.world_bodies[self.loc.file()][place],
+                    hir::Expr::Directive { name, .. }
+                        if self.interner.lookup(name.name.0) == "unwrap"
+                );
+
                 if self.tys[self.loc][expr].is_aggregate()
+                    || is_unwrap
                     || matches!(
-                        self.world_bodies[self.loc.file()][expr],
+                        self.world_bodies[self.loc.file()][place],
                         hir::Expr::Local(_)
                             | hir::Expr::LocalGlobal(_)
                             | hir::Expr::Index { .. }
                             | hir::Expr::Member { .. }
+                            | hir::Expr::Deref { .. }
                     )
                 {
                     // references to locals or globals should return the actual memory address of the local or global
@@ -2174,10 +2189,30 @@ impl FunctionCompiler<'_> {
             hir::Expr::Import(_) => None,
             hir::Expr::Directive { name, args } => match self.interner.lookup(name.name.0) {
                 "unwrap" => {
-                    let sum_val = self
-                        .compile_expr(args[0])
-                        .expect("sum types are never zero-sized");
                     let sum_ty = self.tys[self.loc][args[0]];
+                    // when the unwrapped value is used as a place (`#unwrap(o, T) = v`,
+                    // `^mut #unwrap(o, T)`) the address of the payload is needed, not its value.
+                    // A tagged union is always in memory and its payload sits at offset 0.
+                    // An optional pointer *is* the payload, so its own address is needed.
+                    let niche_place = no_load && !sum_ty.is_tagged_union();
+                    let sum_addr = if niche_place {
+                        Some(
+                            self.compile_expr_with_args(args[0], true)
+                                .expect("sum types are never zero-sized"),
+                        )
+                    } else {
+                        None
+                    };
+                    let sum_val = match sum_addr {
+                        Some(addr) => {
+                            self.builder
+                                .ins()
+                                .load(self.ptr_ty, MemFlags::trusted(), addr, 0)
+                        }
+                        None => self
+                            .compile_expr(args[0])
+                            .expect("sum types are never zero-sized"),
+                    };
                     assert!(sum_ty.is_sum_ty(), "{sum_ty:?} is not a sum type");
 
                     let variant_ty = self.tys[self.loc][expr];
@@ -2213,7 +2248,11 @@ impl FunctionCompiler<'_> {
                             )),
                         );
 
-                        super::unwrap_sum_ty(&mut self.builder, sum_val, sum_ty, variant_ty)
+                        if no_load && !variant_ty.is_zero_sized() {
+                            Some(sum_val)
+                        } else {
+                            super::unwrap_sum_ty(&mut self.builder, sum_val, sum_ty, variant_ty)
+                        }
                     } else {
                         assert!(sum_ty.is_optional());
                         assert!(!sum_ty.is_tagged_union());
@@ -2235,7 +2274,15 @@ impl FunctionCompiler<'_> {
                             )),
                         );
 
-                        super::unwrap_sum_ty(&mut self.builder, sum_val, sum_ty, variant_ty)
+                        match sum_addr {
+                            Some(addr) if *variant_ty != Ty::Nil => Some(addr),
+                            _ => super::unwrap_sum_ty(
+                                &mut self.builder,
+                                sum_val,
+                                sum_ty,
+                                variant_ty,
+                            ),
+                        }
                     }
                 }
                 "is_variant" => {
